@@ -396,14 +396,14 @@ func runC20(c *Check, w *World) {
 						ctr = P(i)
 					}
 					if t.Kind() == types.Uint8 && strings.HasSuffix(p.Type().String(), "Digits") {
-						dig = "call((github.com/ja7ad/otp.Digits).Int; " + P(i) + ")"
+						dig = P(i)
 					}
 					if t.Kind() == types.Uint8 && strings.HasSuffix(p.Type().String(), "Algorithm") {
 						alg = P(i)
 					}
 				}
 			}
-			if a[roles.Key].String() != sec || a[roles.Counter].String() != ctr || a[roles.Digits].String() != dig || a[roles.Algo].String() != alg {
+			if a[roles.Key].String() != sec || a[roles.Counter].String() != ctr || tb.Norm(a[roles.Digits]).String() != dig || a[roles.Algo].String() != alg {
 				return "the derivation is called with arguments other than the validator's own (secret, counter, digits, algorithm)"
 			}
 			return ""
